@@ -50,3 +50,27 @@ known("C17","C17-v1-batchget-missing","the SDK v1 client does not implement Batc
 known("C17","C17-v1-sdk-input-validation","the v1 client runs the SDK's input.Validate() (table names shorter than 3 characters are rejected with InvalidParameter) while the v2 client accepts the same request: CreateTable(\"ab\") succeeds in v2 only",
  ["C17|INVALID:CreateTable(2-character name)|CreateTable|class|v1=InvalidParameter|v2=success@v1","C17|INVALID:CreateTable(empty name)|CreateTable|class|v1=InvalidParameter|v2=success@v1","C17|INVALID:Put(empty table name)|PutItem|class|v1=InvalidParameter|v2=ResourceNotFoundException@v1"],
  {"op":"CreateTable name 'ab' (h:S, PAY_PER_REQUEST): v1 InvalidParameter, v2 success"})
+fixed("C06","C06-cross-type-comparison-panic","comparing values of different types no longer panics","'n = :s', 'n < :s' and every other comparison between values of different scalar types crashed with an interface-conversion panic")
+fixed("C06","C06-list-index-past-end-panic","a list position past the end","a condition on l[5] of a shorter list crashed with index out of range")
+fixed("C06","C06-attribute-exists-null","attribute_exists is true for an attribute of type NULL","attribute_exists was false (attribute_not_exists true) for an attribute holding NULL")
+fixed("C06","C06-functions-on-missing-attribute","condition functions on a missing attribute are false","attribute_type/begins_with/contains errored on a missing attribute; size() rejected lists, maps and sets")
+fixed("C06","C06-in-between-path-operands","IN and BETWEEN accept document paths","'m.x IN (:v)' and 'l[0] BETWEEN :a AND :b' were rejected with 'identifier expected'")
+fixed("C06","C06-binary-set-equality-order","binary sets compare as sets","two binary sets with the same members in a different order were unequal")
+known("C06","C06-contains-set-operand-subset","contains(path, :v) with a set-typed attribute and an operand that is a set of the same type answers the subset test (true when every member of :v is in the attribute) where DynamoDB only accepts an element of the set as operand (false or a validation error); the subset behaviour of the set objects' Contains is pinned by the repository's own TestStringSetContains / TestNumberSetContains / TestBinarySetContains",
+ ["C06|contains|path[%s]:%s|val:%s|accepted{F,E}|got=T" % (p,t,t) for p in ["a","#a","m.x","m.#x","l[0]","l[1]","m.l[0].x"] for t in ["SS","NS","BS"]],
+ {"expression":"contains(a, :v)","item":"{a: SS[b,z]}","values":"{:v: SS[b,z]}","observed":"true"})
+fixed("C07","C07-set-aliases-value","SET assigns a copy","'SET c = a' shared the object of a (a later action on a changed c; 'SET u.k[1].n = u' built a cyclic document and overflowed the stack)")
+fixed("C07","C07-rhs-reads-updated-item","every SET right-hand side reads the pre-update item","right-hand sides read values already changed by earlier actions of the same expression (SET a = b, b = a; ADD a :n SET c = a; REMOVE a SET b = a)")
+fixed("C07","C07-remove-nested-missing-parent","REMOVE of a nested path whose parent is missing","REMOVE m.x on an item without m failed instead of doing nothing")
+fixed("C07","C07-delete-creates-attribute","DELETE on a missing attribute no longer creates it","DELETE on a missing attribute created it with the operand set")
+known("C07","C07-set-from-missing-path-stores-null","SET with a right-hand side path that does not exist (SET a = nope) stores NULL instead of rejecting the update; pinned by the repository's own TestEvalSetUpdate (the second run of 'SET :x = :val REMOVE :val' must succeed). Attributed only when the result is exactly the item obtained by reading the missing path as NULL",
+ ["C07|%s|invalid-update-accepted|explained-by-missing-path-stored-as-NULL" % v for v in ("Language.Update","client-v1","client-v2")],
+ {"expression":"SET a = nope","item":"{h:k}","observed":"{h:k, a:NULL}"})
+known("C07","C07-add-accepts-any-operand","ADD accepts operands DynamoDB rejects: a string (or any value) is stored under a missing attribute, and a scalar of the element type is added to a set; pinned by the repository's own TestEvalAddUpdate ('ADD newVal :val' with a string, 'ADD :numSet :one'). Attributed only when the result is exactly what this lenient ADD predicts",
+ ["C07|%s|invalid-update-accepted|explained-by-lenient-ADD" % v for v in ("Language.Update","client-v1","client-v2")] +
+ ["C07|%s|invalid-update-accepted|explained-by-missing-path-stored-as-NULL+lenient-ADD" % v for v in ("Language.Update","client-v1","client-v2")],
+ {"expression":"ADD a :s","item":"{h:k}","values":"{:s: S 'str'}","observed":"{h:k, a:'str'}"})
+known("C07","C07-v2-emptied-set-returned-as-null","through the SDK v2 client a set emptied by DELETE is returned as NULL (the v2 mapper turns every empty container into NULL: C10's finding, pinned by the v2 TestUpdateExpressions/remove)",
+ ["C07|client-v2|wrong-result|explained-by-empty-container-returned-as-NULL"] +
+ ["C07|client-v2|invalid-update-accepted|explained-by-%s+empty-container-returned-as-NULL" % m for m in ("missing-path-stored-as-NULL","lenient-ADD","missing-path-stored-as-NULL+lenient-ADD")],
+ {"expression":"DELETE ss :ssall","item":"{ss: SS[x,y]}","observed":"GetItem returns ss: NULL"})
